@@ -32,6 +32,7 @@ def required_cells(tier):
         req["polygon:%d" % m] = 50 if q else 1000
     req["polygon:exhaustive-perms"] = 200
     req["polygon:duplicates"] = 100
+    req["polygon:negated-then-moved"] = 100
     req["polyhedron"] = 300 if q else 6000
     req["polyhedron:exhaustive-orientations"] = 100
     req["fed-back:PG"] = 30 if q else 600
@@ -57,7 +58,10 @@ def cases(rng, budget, widx, nworkers, tier):
                     if rng.random() < 0.4:
                         p += [rng.randrange(m) for _ in range(rng.randint(1, 3))]
                         rng.shuffle(p)
-                    yield {"k": "PG", "d": d, "order": p}
+                    c_ = {"k": "PG", "d": d, "order": p}
+                    if rng.random() < 0.3:
+                        c_["hv"] = [rng.randint(-6, 6) for _ in range(3)]
+                    yield c_
         elif r < 0.8:
             d = gen.rand_polyhedron(rng, small=rng.random() < 0.4)
             nf = len(d[2])
@@ -169,13 +173,26 @@ def judge(case):
             mu.cell("polygon:exhaustive-perms")
         if len(order) > m:
             mu.cell("polygon:duplicates")
-        pts = tuple(G.Point(*[float(c) for c in vs[i]]) for i in order)
+        hv = case.get("hv")
+        shift = K.mul(tuple(F(c) for c in hv), -1) if hv else (0, 0, 0)
+        pts = tuple(G.Point(*[float(c) for c in K.add(vs[i], shift)]) for i in order)
         pg, exc, imp = M.call(lambda p: G.ConvexPolygon(p), pts)
         if exc is not None:
             mu.fail("PG:ctor-raises-" + M.classify_exc(exc), "ConvexPolygon(valid convex vertices) raised %s: %s" % (type(exc).__name__, exc))
             return mu.result()
         if imp:
             mu.fail("PG:ctor-modifies-arguments", imp)
+        if hv:
+            # history: negate and hash first, then move the polygon into place; the canonical form
+            # (and what -p returns) must be that of the moved polygon
+            mu.cell("polygon:negated-then-moved")
+            try:
+                q0 = -pg
+                hash(pg), hash(q0), pg == q0
+                pg.move(G.Vector(*[float(c) for c in hv]))
+            except Exception as e:
+                mu.fail("PG:history-raises-" + type(e).__name__, "negate / hash / move raised %r" % e)
+                return mu.result()
         _check_polygon(G, mu, pg, [K.fl(v) for v in vs], "PG")
         return mu.result()
     if k == "PH":
